@@ -242,6 +242,39 @@ def started_server_idle_reader(rep, cert, formula="ByteExact", long_idle=False):
             t.start()
         for t in ths:
             t.join(180)
+        # a returning visitor: the second and third connection of a client offer to resume the TLS session of the first
+        # (what TLS libraries with a session cache do by default) - every visit is answered like the first
+        with open(os.path.join(root, "small.gmi"), "w") as f:
+            f.write("# small page\n")
+        for bk in servers:
+            for maxv in (ssl.TLSVersion.TLSv1_2, ssl.TLSVersion.TLSv1_3):
+                ctx = client_ctx(max_v=maxv)
+                sess, visits = None, []
+                for visit in range(3):
+                    got = b""
+                    try:
+                        raw = socket.create_connection(("127.0.0.1", servers[bk].port), timeout=10)
+                        raw.settimeout(10)
+                        s_ = ctx.wrap_socket(raw, server_hostname="localhost", session=sess)
+                        s_.sendall(b"gemini://localhost/small.gmi\r\n")
+                        while True:
+                            d_ = s_.recv(65536)
+                            if not d_:
+                                break
+                            got += d_
+                        sess = s_.session
+                    except (ssl.SSLError, OSError) as e_:
+                        got += b"<" + type(e_).__name__.encode() + b">"
+                    finally:
+                        try:
+                            raw.close()
+                        except Exception:
+                            pass
+                    visits.append(got)
+                if any(v != b"20 text/gemini\r\n# small page\n" for v in visits):
+                    rep.violation({"formula": formula, "backend": bk, "live": True, "reader": "returning", "via": "start_server"},
+                                  "server started by start_server (%s backend, up to %s): a client that offers to resume its TLS session on its second and third visit received %s" % (
+                                      bk, maxv.name, [v[:40] for v in visits]), None)
         want = b"20 text/gemini\r\n" + content.encode()
         for bk, (data, end) in long_results.items():
             if data != want or end != "eof":
